@@ -210,12 +210,20 @@ PROPS["C05"] = dict(
     explanation="every ECDH method is executed from the real AST: refusal conditions, InvalidSharedSecretError iff the product is the identity, secret = x(dA dB G), bytes = that integer left-padded to the field length, loaders keep `stored keys are on the agreed curve` and store remote keys only when built with point validation on; symmetry lemma over the contracts",
 )
 
+def _c14_wrappers(tier, seed):
+    from contracts.keys import recovery_wrappers_bounded
+    return recovery_wrappers_bounded(tier, seed)
+
+
 PROPS["C14"] = dict(
     level="proof",
-    functions=["ecdsa.ecdsa.Signature.recover_public_keys", "ecdsa.ecdsa.Public_key.verifies", "ecdsa.keys._truncate_and_convert_digest",
+    functions=["ecdsa.ecdsa.Signature.recover_public_keys", "ecdsa.keys.VerifyingKey.from_public_key_recovery_with_digest", "ecdsa.keys.VerifyingKey.from_public_key_recovery",
+               "ecdsa.ecdsa.Public_key.verifies", "ecdsa.keys._truncate_and_convert_digest",
                "ecdsa.numbertheory.square_root_mod_prime", "ecdsa.numbertheory.inverse_mod"],
     lemmas=[],
-    bounded=[_B("ecdsa.ecdsa.Signature.recover_public_keys", "toy curves of prime order over F_p, p <= 13 (quick) / 23 (thorough): all d, k in [1, n-1] x all e in [0, n+1] with x(kG) < n")],
+    bounded=[_B("ecdsa.ecdsa.Signature.recover_public_keys", "toy curves of prime order over F_p, p <= 13 (quick) / 23 (thorough): all d, k in [1, n-1] x all e in [0, n+1] with x(kG) < n"),
+             dict(function="ecdsa.keys.VerifyingKey.from_public_key_recovery", label="recovery wrappers on real curves", role="CPython cross-check of proved contracts",
+                  bound="4 curves x 4 keys x {raw, DER} decoders x allow_truncate x both wrappers", run=_c14_wrappers)],
     min_obligations=6,
     trusted_base=["scalar mode (see C02); cofactor 1: the two curve points with x-coordinate r are +-kG", "contract of square_root_mod_prime (C15)",
                   "the wrappers from_public_key_recovery(_with_digest) decode with the C12 decoders, truncate with the same function as verify, and wrap with from_public_point"],
